@@ -104,8 +104,8 @@ def encode(flat, d, eols):
     out = []
     for s, e in zip(flat, eols):
         els = [x.replace(':', d[2]) if s[0] != 'ISA' else x for x in s[1:]]
-        if s[0] == 'ISA' and len(els) == 16:
-            els[15] = d[2]
+        if s[0] == 'ISA' and len(els) >= 16:
+            els[15] = d[2]          # (also when a fault gave the ISA more elements: ISA16 is still the component separator)
         out.append((s[0] + d[1] + d[1].join(els) if els else s[0]) + d[0] + e)
     return ''.join(out)
 
